@@ -155,8 +155,9 @@ pub fn handle(report: &mut Report, ctx: &CaseCtx) {
                 Err(_) => (sig.clone(), detail),
             };
             // dedup is on the coarse signature (already inserted below through `violation`)
-            report.seen_signatures.insert(sig.clone());
             report.violation(witness_from_case("C04", "c04", &sig_full, &d2, report.seed, ctx.index, &small));
+            // further cases with the same coarse signature are not shrunk again
+            report.seen_signatures.insert(sig.clone());
         }
     }
 }
